@@ -10,6 +10,7 @@ require (
 )
 
 require (
+	github.com/natefinch/atomic v1.0.1 // indirect
 	golang.org/x/mod v0.20.0 // indirect
 	golang.org/x/sync v0.10.0 // indirect
 	golang.org/x/tools v0.24.0 // indirect
